@@ -367,7 +367,10 @@ type Store struct {
 
 	PromptNoneLoginRequired bool
 	KeyUseAbsent            bool // the published keys carry no "use" member
-	LiveRefresh             bool // RefreshTokenRequest is a live view of the stored grant: SetCurrentScopes writes through (as in example/server/storage)
+	// RotateMid: the signing key is replaced by this key right after the NEXT read of the signing key - a rotation that lands in the middle
+	// of a request (between two storage calls); the old key stays published
+	RotateMid   *SignKey
+	LiveRefresh bool // RefreshTokenRequest is a live view of the stored grant: SetCurrentScopes writes through (as in example/server/storage)
 	// refusals: auth request id -> the error the storage answers when asked to issue (code or tokens) for that request
 	refusals map[string]error
 	Health_  error
@@ -775,7 +778,14 @@ func (s *Store) SigningKey(ctx context.Context) (op.SigningKey, error) {
 	if err := s.enter(ctx, "SigningKey"); err != nil {
 		return nil, err
 	}
-	return s.Signing, nil
+	s.mu.Lock()
+	defer s.mu.Unlock()
+	k := s.Signing
+	if s.RotateMid != nil {
+		s.Retired = append(s.Retired, s.Signing)
+		s.Signing, s.RotateMid = s.RotateMid, nil
+	}
+	return k, nil
 }
 
 func (s *Store) SignatureAlgorithms(ctx context.Context) ([]jose.SignatureAlgorithm, error) {
